@@ -488,6 +488,20 @@ def rule_merge(ctx):
         raise AnalysisError("FileInfo.update: the stores into self.times[0] and self.times[1] were not both found (%s)" % [norm(s) for s in stores])
     dfl = u.defaults().get("ignore_none_time")
     attr = any(norm(s).replace(" ", "") in ("self.attr.update(**%s.attr)" % other, "self.attr.update(%s.attr)" % other) for s in u.body)
+    if not attr:
+        # the merge written as a new dict: the LAST spread wins, it must be the other object's attributes
+        for s_ in u.body:
+            if isinstance(s_, ast.Assign) and len(s_.targets) == 1 and norm(s_.targets[0]) == "self.attr":
+                v_ = s_.value
+                spreads = None
+                if isinstance(v_, ast.Dict) and all(k_ is None for k_ in v_.keys):
+                    spreads = [str(norm(x_)) for x_ in v_.values]
+                elif isinstance(v_, ast.Call) and dotted(v_.func) == "dict" and len(v_.args) <= 1 and all(k_.arg is None for k_ in v_.keywords):
+                    spreads = [str(norm(x_)) for x_ in list(v_.args) + [k_.value for k_ in v_.keywords]]
+                if spreads is not None and sorted(spreads) == sorted(["self.attr", "%s.attr" % other]):
+                    attr = True
+                    if spreads[-1] != "%s.attr" % other:
+                        bad.append("%s: the attributes already present override those of `%s`" % (norm(s_)[:60], other))
     if dfl is None or norm(dfl) != "True":
         bad.append("default of ignore_none_time is %s" % (norm(dfl) if dfl is not None else None))
     if not attr:
